@@ -260,6 +260,46 @@ def response(cx):
     cx.check(n >= 2, "floor", "both outcomes of a snapshot install are acknowledged")
 
 
+@obligation("SNAP.request_index", ["C15", "C03", "C05"], floor=3, kind="value shape + guard + argument pass-through",
+            why="a requested snapshot is installed unconditionally and replaces the whole log: it must cover everything the follower has acknowledged, i.e. be asked for at last_index()")
+def request_index(cx):
+    PRS = "RaftCore.pending_request_snapshot"
+    f = cx.fn("Raft::request_snapshot")
+    ws = [s for s in cx.prog.writes.get(PRS, []) if s.fn is f and "stmt" in s.data]
+    cx.check(len(ws) == 1, "request:site", "request_snapshot records the requested index at one site (found %d)" % len(ws))
+    n = 0
+    for s in ws:
+        v = write_value(cx, s)
+        key = cx.site_key(s, "request")
+        cx.check(v[0] == "call" and v[1].endswith("RaftLog::last_index"), key + ":value", "the requested index is raft_log.last_index() (found %s)" % show(v)[:100], s, value=show(v))
+        def own_term(l):
+            if l[0] != "is" or l[2] is not True or l[1][0] != "bin" or l[1][1] != "Eq":
+                return False
+            xs = l[1][2:4]
+            return any(is_f(x, TERM) for x in xs) and any(any(y[0] == "call" and y[1].endswith("RaftLog::term") and any(z[0] == "call" and z[1].endswith("RaftLog::last_index") for z in walk(y)) for y in walk(x)) for x in xs)
+        def not_leader(l):
+            return l[0] == "in" and is_f(l[1], STATE) and "Leader" not in l[2]
+        def none_pending(l):
+            return l[0] == "in" and is_f(l[1], PRS) and l[2] == frozenset([0])
+        require_all(cx, s, key + ":guards", "a snapshot is requested only by a non-leader whose last entry is of the current term and that has no request outstanding",
+                    [("state != Leader", not_leader), ("term(last_index) == self.term", own_term), ("no request pending", none_pending)], kill=False)
+        n += 1
+    # every other writer clears it, or restores a value saved in the same function (the follower transition)
+    for s in cx.prog.writes.get(PRS, []):
+        if s.fn is f or "stmt" not in s.data:
+            continue
+        v = write_value(cx, s)
+        ok = v == ("int", 0) or is_f(v, PRS)
+        cx.check(ok, cx.site_key(s, "write:" + PRS), "elsewhere pending_request_snapshot is only cleared or carried over (found %s)" % show(v)[:80], s)
+        n += 1
+    # the leader hands the requested index on to the storage, which must not answer with an older snapshot
+    for c in cx.prog.call_sites_of("RaftLog::snapshot"):
+        a0 = call_args(cx, c)[1]
+        cx.check(is_f(a0, "Progress.pending_request_snapshot"), cx.site_key(c, "storage-request"), "the snapshot is fetched for the follower's requested index (found %s)" % show(a0)[:80], c)
+        n += 1
+    cx.check(n >= 3, "floor", "request-snapshot sites were found")
+
+
 def _not_in_voters(cx, l):
     """literal: !<voters>.contains(x)"""
     return l[0] == "is" and l[2] is False and l[1][0] == "call" and l[1][1].endswith("::contains") and any(is_f(x, "Configuration.voters") for x in walk(l[1]))
